@@ -183,27 +183,87 @@ def firstDiffLine : List String → List String → String
   | [], b :: _ => s!"got nothing more, want «{b}»"
   | [], [] => "no difference"
 
+/-- model column (denotation with the engine's cut barriers) and verdict (ISO denotation) for the
+    implementation's answer lines of one grammar case -/
+def judgeLang (c : Case) (impl : String) : String × String :=
+  let iso := langLines { engine := false } false c
+  let eng := langLines { engine := true } false c
+  let sld := langLines { engine := false } true c
+  let model := match eng with
+    | .ok ls => " ; ".intercalate ls
+    | .error e => "NO-MODEL " ++ e
+  let implLs := splitOps impl
+  let v := match iso with
+    | .error _ => "-"
+    | .ok ls =>
+      if sld.toOption.isSome && sld.toOption != some ls then
+        "FAIL SPEC-INCONSISTENT: the reference SLD evaluation of the translated grammar and the denotation disagree: " ++
+          firstDiffLine (sld.toOption.getD []) ls
+      else if ls == implLs then "ok"
+      else if eng.toOption == some implLs then
+        "FAIL [engine-cut-barrier] a cut inside a nested alternation or an if-then-else branch is local to it (ISO: it cuts the rule): " ++ firstDiffLine implLs ls
+      else "FAIL answers differ from the denotation: " ++ firstDiffLine implLs ls
+  (model, v)
+
 def handlerLang : Handler := fun payload impl =>
   match parseCase payload with
   | .error e => ("BAD-CASE " ++ e, "FAIL " ++ e)
-  | .ok c =>
-    let iso := langLines { engine := false } false c
-    let eng := langLines { engine := true } false c
-    let sld := langLines { engine := false } true c
-    let model := match eng with
-      | .ok ls => " ; ".intercalate ls
-      | .error e => "NO-MODEL " ++ e
-    let implLs := splitOps impl
-    let v := match iso with
-      | .error _ => "-"
-      | .ok ls =>
-        if sld.toOption.isSome && sld.toOption != some ls then
-          "FAIL SPEC-INCONSISTENT: the reference SLD evaluation of the translated grammar and the denotation disagree: " ++
-            firstDiffLine (sld.toOption.getD []) ls
-        else if ls == implLs then "ok"
-        else if eng.toOption == some implLs then
-          "FAIL [engine-cut-barrier] a cut inside a nested alternation or an if-then-else branch is local to it (ISO: it cuts the rule): " ++ firstDiffLine implLs ls
-        else "FAIL answers differ from the denotation: " ++ firstDiffLine implLs ls
-    (model, v)
+  | .ok c => judgeLang c impl
+
+/-! ## c17.rep — bodies, rules and push-backs whose parts are BUILT AT RUN TIME
+
+  An item of the payload is a template term followed by construction steps `step(How, V, T)`: the
+  harness binds the variable `V` at run time to (some Go representation of) the term `T` — by
+  `=..`, read/1, functor/3, cell-by-cell lists with tails bound later, aliases, strings, append/3 …
+  — in the SAME query as the phrase/expand_term call.  Abstractly nothing but the substitution
+  V := T has happened, so everything here is computed on the substituted term: the result must
+  not depend on the representation. -/
+
+mutual
+  def substVT (m : List (Nat × Term)) : Term → Term
+    | .var v => match m.lookup v with | some t => t | none => .var v
+    | .app f as => .app f (substVA m as)
+    | t => t
+  def substVA (m : List (Nat × Term)) : Args → Args
+    | .nil => .nil
+    | .cons t ts => .cons (substVT m t) (substVA m ts)
+end
+
+/-- template + steps ↦ the abstract term (placeholders may mention earlier placeholders) -/
+def abstractItem (ts : List Term) : Option Term :=
+  match ts with
+  | [] => none
+  | tmpl :: steps =>
+    let m := steps.filterMap fun s => match s with
+      | .app "step" (.cons _ (.cons (.var v) (.cons t .nil))) => some (v, t)
+      | _ => none
+    if m.length ≠ steps.length then none
+    else some ((List.range (m.length + 1)).foldl (fun t _ => substVT m t) tmpl)
+
+def handlerRep : Handler := fun payload impl =>
+  match payload.splitOn " ; " with
+  | flags :: itemWs =>
+    match itemWs.mapM (fun w => (parseTerms w).bind abstractItem) with
+    | none => ("BAD-CASE", "FAIL bad payload")
+    | some [] => ("BAD-CASE", "FAIL bad payload")
+    | some (first :: rest) =>
+      if flagOf flags "mode" == "expand" then
+        -- expand_term/2 twice on the same rule term, both results
+        let n := boundT first
+        let m1 := expand first n
+        let m2 := expand first m1.2
+        let model := "x2 " ++ pterm [first, m1.1, m2.1]
+        let want := match Rule.ofTerm first with
+          | .ok r => let c1 := r.tr n; let c2 := r.tr c1.2; "x2 " ++ pterm [first, c1.1, c2.1]
+          | .error _ => "x2 " ++ pterm [first, first, first]
+        (model, if impl == want then "ok"
+                else "FAIL expand_term/2 (twice, on a rule with parts built at run time) differs from the reference translation: want " ++ want)
+      else
+        match Body.ofTerm first, rest.mapM (fun r => match Rule.ofTerm r with | .ok r => some r | _ => none) with
+        | .ok b, some gr =>
+          judgeLang { maxLen := (flagOf flags "len").toNat!, gen := flagOf flags "gen" == "1",
+                      start := first, body := b, gr := gr } impl
+        | _, _ => ("BAD-CASE grammar does not parse", "FAIL grammar does not parse")
+  | _ => ("BAD-CASE", "FAIL bad payload")
 
 end PrologVerif.Driver.C17
